@@ -179,7 +179,7 @@ func drawC02Doc(t *rapid.T, format string) (Doc, string) {
 func init() {
 	register(&Property{
 		ID:   "C02",
-		Rule: "documents: library-encoder output of gen.Stream, foreign documents of the reference encoders (non-minimal CBOR, typed UBJSON, JSON with escapes/whitespace), concatenated container streams, byte mutations of valid documents (verdict only) x chunkings (single cut, every byte, cuts aimed into token spans, random subsets) x {Parse, ParseReader(chunk reader; also with the last chunk returned together with io.EOF), Write sequence with empty writes}; oracle = the library on the unsplit input; non-trivial = a cut strictly inside a multi-byte token (measured from token spans) or an empty write between chunks; the quick tier also enumerates every single cut and the every-byte schedule of a fixed document set, the thorough tier all 2^(n-1) cut subsets of 21 documents of at most 13 bytes; distinct by (doc, cuts) hash",
+		Rule: "documents: library-encoder output of gen.Stream, foreign documents of the reference encoders (non-minimal CBOR, typed UBJSON, JSON with escapes/whitespace), concatenated container streams, byte mutations of valid documents (verdict only) x chunkings (single cut, every byte, cuts aimed into token spans, random subsets) x {Parse, ParseReader(chunk reader; also with the last chunk returned together with io.EOF), Write sequence with empty writes}; oracle = the library on the unsplit input; non-trivial = a cut strictly inside a multi-byte token (measured from token spans) or an empty write between chunks; the quick tier also enumerates every single cut and the every-byte schedule of a fixed document set, and a length-field matrix (UBJSON and CBOR: every byte value 0..255, and two-byte lengths holding a marker/break/quote byte, as the length of a key, string, byte string, H number and element count in every container form, cut at each of the first 9 positions); the thorough tier all 2^(n-1) cut subsets of 21 documents of at most 13 bytes; distinct by (doc, cuts) hash",
 		New:  func() any { return &C02Case{} },
 		Draw: func(t *rapid.T) any {
 			c := &C02Case{Format: rapid.SampledFrom(formatNames).Draw(t, "format")}
@@ -240,4 +240,125 @@ func enumC02(emit func(c any) bool) {
 			}
 		}
 	}
+	// length-field matrix: every byte value as (part of) the length of a key, a string
+	// and a byte string, in every container form, cut at every position of the header.
+	// A length byte that happens to equal a marker, a break or a quote must never be
+	// looked at as anything but a length when it arrives at the start of a chunk.
+	for _, format := range []string{"ubjson", "cborl"} {
+		for _, doc := range lengthMatrixDocs(format) {
+			for cut := 1; cut < len(doc) && cut <= 9; cut++ {
+				if !emit(&C02Case{Format: format, Doc: doc, Cuts: []int{cut}, Kind: "enum_lenmatrix", Spans: [][2]int{{0, len(doc)}}}) {
+					return
+				}
+			}
+		}
+	}
+}
+
+func lengthMatrixDocs(format string) [][]byte {
+	fill := func(n int) []byte {
+		b := make([]byte, n)
+		for i := range b {
+			b[i] = byte('a' + i%26)
+		}
+		return b
+	}
+	cat := func(parts ...[]byte) []byte {
+		var out []byte
+		for _, p := range parts {
+			out = append(out, p...)
+		}
+		return out
+	}
+	lens := []int{}
+	for b := 0; b < 256; b++ {
+		lens = append(lens, b)
+	}
+	for _, m := range []int{'N', 'Z', 'T', 'F', 'i', 'U', 'I', 'l', 'L', 'd', 'D', 'H', 'C', 'S', '[', ']', '{', '}', '#', '$', 0xff, 0x5f, 0x7f, 0x9f, 0xbf, '"', '\\'} {
+		lens = append(lens, 256+m, m<<8)
+	}
+	var docs [][]byte
+	for _, n := range lens {
+		body := fill(n)
+		switch format {
+		case "ubjson":
+			var l []byte
+			switch {
+			case n < 128 && n%2 == 0:
+				l = []byte{'i', byte(n)}
+			case n < 256:
+				l = []byte{'U', byte(n)}
+			case n < 32768:
+				l = []byte{'I', byte(n >> 8), byte(n)}
+			default:
+				l = []byte{'l', 0, 0, byte(n >> 8), byte(n)}
+			}
+			docs = append(docs,
+				cat([]byte("{"), l, body, []byte("T}")),
+				cat([]byte("{#i\x01"), l, body, []byte("T")),
+				cat([]byte("[S"), l, body, []byte("]")),
+			)
+			if n < 300 {
+				docs = append(docs,
+					cat([]byte("{$T#i\x01"), l, body),
+					cat([]byte("S"), l, body),
+					cat([]byte("H"), l, fillDigits(n)),
+					cat([]byte("{i\x01aS"), l, body, l, body, []byte("Z}")),
+				)
+			}
+			if n > 0 && n < 300 {
+				docs = append(docs, cat([]byte("[$Z#"), l), cat([]byte("[$U#"), l, body), cat([]byte("[#"), l, fillMarkers(n, 'T')))
+			}
+		case "cborl":
+			head := func(major byte) []byte {
+				switch {
+				case n < 24 && n%2 == 0:
+					return []byte{major | byte(n)}
+				case n < 256:
+					return []byte{major | 24, byte(n)}
+				case n < 65536 && n%3 != 0:
+					return []byte{major | 25, byte(n >> 8), byte(n)}
+				default:
+					return []byte{major | 26, 0, 0, byte(n >> 8), byte(n)}
+				}
+			}
+			docs = append(docs,
+				cat([]byte{0x9f}, head(0x60), body, []byte{0xff}),
+				cat([]byte{0xbf}, head(0x60), body, []byte{0x01, 0xff}),
+				cat([]byte{0x82}, head(0x00), head(0x20)),
+			)
+			if n < 300 {
+				docs = append(docs,
+					cat(head(0x60), body),
+					cat(head(0x40), body),
+					cat([]byte{0xa1}, head(0x60), body, head(0x40), body),
+				)
+			}
+			if n > 0 && n < 300 {
+				docs = append(docs, cat(head(0x80), fillMarkers(n, 0x01)))
+			}
+		}
+	}
+	return docs
+}
+
+func fillDigits(n int) []byte {
+	if n == 0 {
+		return nil
+	}
+	b := make([]byte, n)
+	for i := range b {
+		b[i] = byte('1' + i%9)
+	}
+	return b
+}
+
+// fillMarkers returns n one-byte values (callers pass a byte that is a complete
+// value in their format).
+func fillMarkers(n int, v byte) []byte {
+	b := make([]byte, n)
+	for i := range b {
+		b[i] = v
+	}
+	return b
 }
